@@ -12,6 +12,13 @@ def _c(text, ref):
 
 
 CLAIMS = {
+    "C20": _c("Bounded symbolic model checking of the real build_schema / validate_schema / graphql_sync on a schema family with "
+              "known ground truth: 36 single edits of a 14-definition base schema (27 rule violations + 9 legal controls) and every "
+              "pair of them under both SDL routes, all 6x6 wrapper stacks for interface field covariance and argument invariance, "
+              "13 types x 14 default literals (and pairs of positions sharing a literal), nested defaults reaching non-input types, "
+              "and extensions of assumed-valid bases. Assertions: validate_schema never raises, reports errors iff a rule is "
+              "violated, is stable on repetition, and a request returns exactly those errors without executing.",
+              "DESIGN.md section 7, C20"),
     "C14": _c("Bounded symbolic model checking of the real OverlappingFieldsCanBeMergedRule against a direct transcription of the "
               "specification's FieldsInSetCanMerge / SameResponseShape over fragment-expanded selection sets: 8 document structures "
               "(exclusive and non-exclusive parents, spreads, the same fragment reached both ways, mutual recursion, 3-cycles, "
